@@ -83,6 +83,35 @@ def check_mixed(est, d, rng):
   return None
 
 
+def check_narrow(est, L, d, rng):
+  """query points held in a narrow floating-point dtype (float32 at magnitude 2^73 ~ 1e22, float16 at magnitude ~ 1e3): the coordinates and
+  their differences are exactly representable in that dtype, the distances are far from the float64 overflow threshold, so the distance is
+  finite and equals the float64 computation on the same numbers"""
+  for name, dt, unit in (('float32', np.float32, 2.0 ** 73), ('float16', np.float16, 32.0)):
+    k = rng.randint(-30, 31, size=(6, 2, d))
+    k[0, 1] = k[0, 0]                                        # one pair of identical points
+    pairs64 = k.astype(float) * unit
+    pairs = pairs64.astype(dt)
+    if not np.array_equal(pairs.astype(float), pairs64):
+      continue
+    with np.errstate(all='ignore'):
+      want = np.sqrt(np.sum(((pairs64[:, 1] - pairs64[:, 0]).dot(L.T)) ** 2, axis=1))
+      got = np.asarray(est.pair_distance(pairs), dtype=float)
+      sc = np.asarray(est.pair_score(pairs), dtype=float)
+    inp = dict(pairs=pairs64.tolist(), dtype=name)
+    if not np.all(np.isfinite(want)):
+      continue
+    if not np.all(np.isfinite(got)) or np.any(got < 0):
+      return TAG_PD, 'pair_distance of %s points is not finite / non-negative: %r (float64 computation: %r)' % (name, got.tolist(), want.tolist()), inp
+    if got[0] != 0:
+      return TAG_PD, 'd(x, x) = %r for a %s point' % (got[0], name), inp
+    if not np.allclose(got, want, rtol=1e-6, atol=0):
+      return TAG_PD, 'pair_distance of %s points %r differs from the float64 computation %r' % (name, got.tolist(), want.tolist()), inp
+    if not np.array_equal(sc, -got):
+      return TAG_PS, 'pair_score != -pair_distance for %s points: %r vs %r' % (name, sc.tolist(), got.tolist()), inp
+  return None
+
+
 def cases(tier, seed):
   ml = repo()
   rng = np.random.RandomState(seed)
@@ -117,6 +146,19 @@ def cases(tier, seed):
             return dict(tag=bad[0], observed=bad[1], input=dict(estimator=cls, components_=L.tolist(), **bad[2]))
           return None
         yield '%s L=%s mixed argument dtypes' % (cls, lname), (TAG_MF,), thunk_mixed
+
+        def thunk_narrow(est=est, L=L, d=d, sub=sub, cls=cls):
+          st_ = sub.get_state()
+          try:
+            bad = check_narrow(est, L, d, sub)
+          except Exception as e:
+            bad = (TAG_PD, '%s: %s' % (type(e).__name__, e), {})
+          finally:
+            sub.set_state(st_)
+          if bad:
+            return dict(tag=bad[0], observed=bad[1], input=dict(estimator=cls, components_=L.tolist(), **bad[2]))
+          return None
+        yield '%s L=%s narrow floating-point query points' % (cls, lname), (TAG_PD, TAG_PS), thunk_narrow
 
 
 def run(tier, seed):
